@@ -6,6 +6,7 @@ import (
 	"bytes"
 	"context"
 	"crypto/sha256"
+	"encoding/hex"
 	"encoding/json"
 	"errors"
 	"fmt"
@@ -1448,11 +1449,19 @@ type c16Result struct {
 	hang  bool
 	final string
 	extra string // not in the summary: pending expectation, stored order
+	id    string // the ticket ID of the run (hex)
 }
 
 // runSchedule executes ops on a fresh pair of real negotiators.
 func c16RunSchedule(r *Run, k *c16Keys, ops []string) c16Result {
 	id := c16RandomID(r)
+	if len(ops) > 0 && strings.HasPrefix(ops[0], "id ") {
+		// a recorded case names its ticket ID
+		if b, err := hex.DecodeString(strings.TrimPrefix(ops[0], "id ")); err == nil && len(b) == 8 {
+			copy(id[:], b)
+		}
+		ops = ops[1:]
+	}
 	k = k.withID(id)
 	if id[0] > 0x73 {
 		r.Count("run/id-after-bids-bucket")
@@ -1592,6 +1601,7 @@ func c16RunSchedule(r *Run, k *c16Keys, ops []string) c16Result {
 	res.bad = o.bad
 	res.final = w.summary()
 	res.extra = fmt.Sprintf("pend=%d", len(w.pendingR))
+	res.id = hex.EncodeToString(id[:])
 	return res
 }
 
@@ -2143,7 +2153,7 @@ func runC16(r *Run) {
 		}
 		if res.bad != "" {
 			r.Count("oracle/violation")
-			r.Violate(res.bad, "C16/safety", ops)
+			r.Violate(res.bad, "C16/safety", append([]string{"id " + res.id}, ops...))
 		}
 	}
 	runRec := func(kind string) func(ops []string) c16Result {
